@@ -263,7 +263,7 @@ func c09emptied(c *core.Ctx) {
 func C09(c *core.Ctx) {
 	c09born(c)
 	c09emptied(c)
-	c.Rule = "generated schemas with several choices per container, choices nested in cases, shorthand cases, choices inside containers and inside a list entry; histories of 1–8 upserts that alternate between cases and switch back, from 3 source implementations into the reference store, reflection over maps and nodeutil.Node; after every step the complete target (re-read independently) is compared with the Lean model and the at-most-one-case invariant is checked on the real store; reads of stores that hold two cases are compared with the model's read; steps into the reference store are repeated with one node callback of the target failing (every position for short steps, a sample otherwise): whatever the call returns the store must still satisfy the invariant. non-trivial = step whose source writes into a choice that already has another case selected; distinct by (schema, history prefix, implementations)"
+	c.Rule = "generated schemas with several choices per container, choices nested in cases, shorthand cases, choices inside containers and inside a list entry; histories of 1–8 upserts that alternate between cases and switch back, from 3 source implementations into the reference store, reflection over maps and nodeutil.Node; after every step the complete target (re-read independently) is compared with the Lean model and the at-most-one-case invariant is checked on the real store; reads of stores that hold two cases are compared with the model's read; steps into the reference store are repeated with one node callback of the target failing (every position for short steps, a sample otherwise): whatever the call returns the store must still satisfy the invariant; directed: a target whose new containers / entries are born with data of one case (OnNewObject); a case emptied by deletes (list entries, container) followed by an upsert of another case on three backends; nodeutil.Tee of two stores as target (both compared after every step). non-trivial = step whose source writes into a choice that already has another case selected; distinct by (schema, history prefix, implementations)"
 	c.Assumptions = append(c.Assumptions,
 		"the model covers leaves, containers and choices; lists enter only as the entry a history edits",
 		"Choose of the reference store = first case in sorted case-ident order holding data (the contract the theorems assume)")
